@@ -612,4 +612,823 @@ theorem flagged_revisit (hw : WF g rk) (hb : build g root fuel = some adds) (ho 
 
 end Final
 
+/-! ## 7. The produced edge relation has no cycle -/
+
+/-- All members of `t` count as visited. -/
+def Done (g : TyGraph) (vis : List Nat) (t : Nat) : Prop := ∀ c ∈ g.kidTys t, seen g vis c = true
+
+theorem done_congr {vis : List Nat} {t t' : Nat} (h : g.kidTys t = g.kidTys t') (hd : Done g vis t) :
+    Done g vis t' := by
+  intro c hc; rw [← h] at hc; exact hd c hc
+
+theorem done_mono {vis vis' : List Nat} (h : ∀ x ∈ vis, x ∈ vis') {t : Nat} (hd : Done g vis t) :
+    Done g vis' t := fun c hc => seen_mono h (hd c hc)
+
+/-- Every flagged queue entry has all its members visited already, or an entry with the same members
+    stands before it (`E`: the entries before this part of the queue). -/
+def QInv (g : TyGraph) (vis : List Nat) : (Node → Prop) → List Node → Prop
+  | _, [] => True
+  | E, q :: rest =>
+    (q.cyclic = true → Done g vis q.ty ∨ ∃ q', E q' ∧ g.kidTys q'.ty = g.kidTys q.ty)
+      ∧ QInv g vis (fun x => E x ∨ x = q) rest
+
+theorem qinv_mono {vis : List Nat} (l : List Node) : ∀ {E E' : Node → Prop}, (∀ x, E x → E' x) →
+    QInv g vis E l → QInv g vis E' l := by
+  induction l with
+  | nil => intro _ _ _ _; trivial
+  | cons q rest ih =>
+    intro E E' hE h
+    obtain ⟨h1, h2⟩ := h
+    refine ⟨fun hc => ?_, ih (fun x hx => hx.imp (hE x) id) h2⟩
+    rcases h1 hc with d | ⟨q', hq', hk⟩
+    · exact Or.inl d
+    · exact Or.inr ⟨q', hE _ hq', hk⟩
+
+theorem qinv_drop {vis V : List Nat} {p : Node} (hmono : ∀ x ∈ vis, x ∈ V) (hp : Done g V p.ty)
+    (l : List Node) : ∀ E : Node → Prop, QInv g vis (fun x => E x ∨ x = p) l → QInv g V E l := by
+  induction l with
+  | nil => intro _ _; trivial
+  | cons q rest ih =>
+    intro E h
+    obtain ⟨h1, h2⟩ := h
+    refine ⟨fun hc => ?_, ih (fun x => E x ∨ x = q) (qinv_mono rest ?_ h2)⟩
+    · rcases h1 hc with d | ⟨q', hq' | rfl, hk⟩
+      · exact Or.inl (done_mono hmono d)
+      · exact Or.inr ⟨q', hq', hk⟩
+      · exact Or.inl (done_congr hk hp)
+    · rintro x ((h | h) | h)
+      · exact Or.inl (Or.inl h)
+      · exact Or.inr h
+      · exact Or.inl (Or.inr h)
+
+theorem qinv_append {V : List Nat} (l1 l2 : List Node) : ∀ E : Node → Prop, QInv g V E l1 →
+    QInv g V (fun x => E x ∨ x ∈ l1) l2 → QInv g V E (l1 ++ l2) := by
+  induction l1 with
+  | nil =>
+    intro E _ h2
+    exact qinv_mono l2 (fun x hx => hx.elim id (fun h => by simp at h)) h2
+  | cons q l1 ih =>
+    intro E h1 h2
+    obtain ⟨h1a, h1b⟩ := h1
+    refine ⟨h1a, ih _ h1b (qinv_mono l2 ?_ h2)⟩
+    rintro x (h | h)
+    · exact Or.inl (Or.inl h)
+    · rcases List.mem_cons.1 h with h | h
+      · exact Or.inl (Or.inr h)
+      · exact Or.inr h
+
+theorem seen_cases {vis : List Nat} {c : Nat} (hs : seen g vis c = true) : c ∈ vis ∨ g.unw c ∈ vis := by
+  simpa [seen] using hs
+
+/-- The entries pushed for one parent satisfy the queue invariant relative to what stood before them. -/
+theorem expand_qinv (hk : ∀ t, g.kidTys (g.unw t) = g.kidTys t) (V : List Nat)
+    (ks : List (Option Str × Nat)) : ∀ (vis : List Nat) (E : Node → Prop),
+    (∀ v ∈ vis, Done g V v ∨ ∃ q', E q' ∧ g.kidTys q'.ty = g.kidTys v) →
+    (∀ x ∈ (expand g vis ks).vis, x ∈ V) → QInv g V E (expand g vis ks).pushed := by
+  induction ks with
+  | nil => intro vis E _ _; simp [expand_nil, QInv]
+  | cons k rest ih =>
+    obtain ⟨v, c⟩ := k
+    intro vis E H hV
+    cases h : (seen g vis c && g.cuttable c) with
+    | true =>
+      rw [expand_cons_ref h] at hV ⊢
+      exact ih vis E H hV
+    | false =>
+      rw [expand_cons_plain h] at hV ⊢
+      refine ⟨?_, ih _ _ ?_ hV⟩
+      · intro hcy
+        simp only [plainNode, Bool.and_eq_true] at hcy
+        rcases seen_cases hcy.1 with hm | hm
+        · exact H c hm
+        · rcases H _ hm with d | ⟨q', hq', hkk⟩
+          · exact Or.inl (done_congr (hk c) d)
+          · exact Or.inr ⟨q', hq', by rw [hkk, hk]; rfl⟩
+      · intro u hu
+        simp only [List.mem_append, List.mem_cons, List.not_mem_nil, or_false] at hu
+        rcases hu with hu | rfl | rfl
+        · rcases H u hu with d | ⟨q', hq', hkk⟩
+          · exact Or.inl d
+          · exact Or.inr ⟨q', Or.inl hq', hkk⟩
+        · exact Or.inr ⟨_, Or.inr rfl, rfl⟩
+        · exact Or.inr ⟨_, Or.inr rfl, by simp [plainNode, hk]⟩
+
+theorem expand_vis_src (hk : ∀ t, g.kidTys (g.unw t) = g.kidTys t) (ks : List (Option Str × Nat)) :
+    ∀ (vis : List Nat), ∀ u ∈ (expand g vis ks).vis,
+      u ∈ vis ∨ ∃ n ∈ (expand g vis ks).pushed, g.kidTys n.ty = g.kidTys u := by
+  induction ks with
+  | nil => intro vis u hu; exact Or.inl (by simpa [expand_nil] using hu)
+  | cons k rest ih =>
+    obtain ⟨v, c⟩ := k
+    intro vis u hu
+    cases h : (seen g vis c && g.cuttable c) with
+    | true =>
+      rw [expand_cons_ref h] at hu ⊢
+      exact ih vis u hu
+    | false =>
+      rw [expand_cons_plain h] at hu ⊢
+      rcases ih _ u hu with h1 | ⟨n, hn, hkk⟩
+      · simp only [List.mem_append, List.mem_cons, List.not_mem_nil, or_false] at h1
+        rcases h1 with h1 | rfl | rfl
+        · exact Or.inl h1
+        · exact Or.inr ⟨_, List.mem_cons_self, rfl⟩
+        · exact Or.inr ⟨_, List.mem_cons_self, by simp [plainNode, hk]⟩
+      · exact Or.inr ⟨n, List.mem_cons_of_mem _ hn, hkk⟩
+
+/-- Rank of a node for the acyclicity argument: forward references (0) < stdlib nodes (1) < re-walked
+    nodes (2) < first occurrences of non-stdlib types (3). -/
+def cls (g : TyGraph) (n : Node) : Nat :=
+  if n.isRef then 0 else if n.cyclic then 2 else if g.stdlib n.ty then 1 else 3
+
+theorem cls_ref {n : Node} (h : n.isRef = true) : cls g n = 0 := by simp [cls, h]
+theorem cls_flag {n : Node} (h : n.isRef = false) (h2 : n.cyclic = true) : cls g n = 2 := by simp [cls, h, h2]
+theorem cls_std {n : Node} (h : n.isRef = false) (h2 : n.cyclic = false) (h3 : g.stdlib n.ty = true) :
+    cls g n = 1 := by simp [cls, h, h2, h3]
+theorem cls_first {n : Node} (h : n.isRef = false) (h2 : n.cyclic = false) (h3 : g.stdlib n.ty = false) :
+    cls g n = 3 := by simp [cls, h, h2, h3]
+
+/-- `c` lies strictly below `p`: lower class; same class (not 3) and smaller type rank; both first
+    occurrences and `c`'s type entered `visited` after `p`'s. -/
+def Below (g : TyGraph) (rk : Nat → Nat) (vis : List Nat) (c p : Node) : Prop :=
+  cls g c < cls g p ∨ (cls g c = cls g p ∧ cls g p ≠ 3 ∧ rk c.ty < rk p.ty) ∨
+    (cls g c = 3 ∧ cls g p = 3 ∧ p.ty ∈ vis ∧ c.ty ∈ vis ∧ vis.idxOf p.ty < vis.idxOf c.ty)
+
+theorem below_trans {rk : Nat → Nat} {vis : List Nat} {a b c : Node} (h1 : Below g rk vis a b)
+    (h2 : Below g rk vis b c) : Below g rk vis a c := by
+  unfold Below at *
+  rcases h1 with h1 | ⟨h1, h1', h1''⟩ | ⟨h1, h1', ha, hb, h1''⟩ <;>
+  rcases h2 with h2 | ⟨h2, h2', h2''⟩ | ⟨h2, h2', hb', hc, h2''⟩
+  · left; omega
+  · left; omega
+  · left; omega
+  · left; omega
+  · right; left; exact ⟨by omega, h2', by omega⟩
+  · omega
+  · left; omega
+  · omega
+  · right; right; exact ⟨h1, h2', hb', hb, by omega⟩
+
+theorem below_irrefl {rk : Nat → Nat} {vis : List Nat} {a : Node} : ¬ Below g rk vis a a := by
+  unfold Below; omega
+
+theorem idxOf_append_of_mem {l ext : List Nat} {x : Nat} (h : x ∈ l) : (l ++ ext).idxOf x = l.idxOf x := by
+  rw [List.idxOf_append]; simp [h]
+
+theorem below_mono {rk : Nat → Nat} {vis ext : List Nat} {c p : Node} (h : Below g rk vis c p) :
+    Below g rk (vis ++ ext) c p := by
+  unfold Below at *
+  rcases h with h | h | ⟨h1, h2, h3, h4, h5⟩
+  · exact Or.inl h
+  · exact Or.inr (Or.inl h)
+  · refine Or.inr (Or.inr ⟨h1, h2, List.mem_append_left _ h3, List.mem_append_left _ h4, ?_⟩)
+    rw [idxOf_append_of_mem h3, idxOf_append_of_mem h4]; exact h5
+
+theorem pred_key_mem {vis : List Nat} {ks : List (Option Str × Nat)} {n : Node}
+    (hn : n ∈ (expand g vis ks).preds) : (n.var, n.ty) ∈ ks := by
+  have := expand_preds_keys (g := g) vis ks
+  rw [← this]; exact List.mem_map.2 ⟨n, hn, rfl⟩
+
+/-- Members of a parent whose members are all visited: references, or walked nodes flagged unless stdlib. -/
+theorem expand_preds_seen (ks : List (Option Str × Nat)) : ∀ vis : List Nat,
+    (∀ c ∈ ks.map Prod.snd, seen g vis c = true) → ∀ n ∈ (expand g vis ks).preds,
+      n.isRef = true ∨ (n.isRef = false ∧ n.cyclic = !g.stdlib n.ty ∧ g.cuttable n.ty = false) := by
+  induction ks with
+  | nil => intro vis _ n hn; simp [expand_nil] at hn
+  | cons k rest ih =>
+    obtain ⟨v, c⟩ := k
+    intro vis H n hn
+    have hc : seen g vis c = true := H c (by simp)
+    have hrest : ∀ vis', (∀ x ∈ vis, x ∈ vis') → ∀ c' ∈ rest.map Prod.snd, seen g vis' c' = true :=
+      fun vis' hm c' hc' => seen_mono hm (H c' (by simp only [List.map_cons, List.mem_cons]; exact Or.inr hc'))
+    cases h : (seen g vis c && g.cuttable c) with
+    | true =>
+      rw [expand_cons_ref h] at hn
+      rcases List.mem_cons.1 hn with rfl | hn
+      · exact Or.inl rfl
+      · exact ih vis (hrest vis (fun _ hx => hx)) n hn
+    | false =>
+      rw [expand_cons_plain h] at hn
+      rcases List.mem_cons.1 hn with rfl | hn
+      · right
+        rw [hc] at h
+        simp only [Bool.true_and] at h
+        simp [plainNode, hc, h]
+      · exact ih _ (hrest _ (fun _ hx => List.mem_append_left _ hx)) n hn
+
+/-- Members of a parent whose members are all stdlib types: walked, unflagged nodes. -/
+theorem expand_preds_std (ks : List (Option Str × Nat)) : ∀ vis : List Nat,
+    (∀ c ∈ ks.map Prod.snd, g.stdlib c = true) → ∀ n ∈ (expand g vis ks).preds,
+      n.isRef = false ∧ n.cyclic = false := by
+  induction ks with
+  | nil => intro vis _ n hn; simp [expand_nil] at hn
+  | cons k rest ih =>
+    obtain ⟨v, c⟩ := k
+    intro vis H n hn
+    have hc : g.stdlib c = true := H c (by simp)
+    have hrest : ∀ c' ∈ rest.map Prod.snd, g.stdlib c' = true :=
+      fun c' hc' => H c' (by simp only [List.map_cons, List.mem_cons]; exact Or.inr hc')
+    have h : (seen g vis c && g.cuttable c) = false := by simp [TyGraph.cuttable, hc]
+    rw [expand_cons_plain h] at hn
+    rcases List.mem_cons.1 hn with rfl | hn
+    · simp [plainNode, hc]
+    · exact ih _ hrest n hn
+
+/-- A first occurrence of a non-stdlib type enters `visited` after everything visited before the loop. -/
+theorem expand_preds_fresh (ks : List (Option Str × Nat)) : ∀ vis : List Nat,
+    ∀ n ∈ (expand g vis ks).preds, n.isRef = false → n.cyclic = false → g.stdlib n.ty = false →
+      n.ty ∈ (expand g vis ks).vis ∧
+      ∀ x ∈ vis, (expand g vis ks).vis.idxOf x < (expand g vis ks).vis.idxOf n.ty := by
+  induction ks with
+  | nil => intro vis n hn; simp [expand_nil] at hn
+  | cons k rest ih =>
+    obtain ⟨v, c⟩ := k
+    intro vis n hn hr hcy hst
+    cases h : (seen g vis c && g.cuttable c) with
+    | true =>
+      rw [expand_cons_ref h] at hn ⊢
+      rcases List.mem_cons.1 hn with rfl | hn
+      · simp [refNode] at hr
+      · exact ih vis n hn hr hcy hst
+    | false =>
+      rw [expand_cons_plain h] at hn ⊢
+      rcases List.mem_cons.1 hn with rfl | hn
+      · simp only [plainNode] at hcy hst ⊢
+        rw [hst] at hcy
+        simp only [Bool.not_false, Bool.and_true] at hcy
+        have hnot : c ∉ vis := by
+          intro hm
+          have : seen g vis c = true := by simp [seen, hm]
+          rw [this] at hcy; cases hcy
+        obtain ⟨ext, he⟩ := expand_vis_append (g := g) (vis ++ [c, g.unw c]) rest
+        rw [he]
+        refine ⟨by simp, ?_⟩
+        intro x hx
+        have h1 : (vis ++ [c, g.unw c] ++ ext).idxOf x = vis.idxOf x := by
+          rw [List.append_assoc, idxOf_append_of_mem hx]
+        have h2 : (vis ++ [c, g.unw c] ++ ext).idxOf c = vis.length := by
+          rw [List.append_assoc, List.idxOf_append]; simp [hnot]
+        rw [h1, h2]
+        exact List.idxOf_lt_length_iff.2 hx
+      · obtain ⟨i1, i2⟩ := ih _ n hn hr hcy hst
+        exact ⟨i1, fun x hx => i2 x (List.mem_append_left _ hx)⟩
+
+structure InvB (g : TyGraph) (rk : Nat → Nat) (s : State) : Prop where
+  qIn : ∀ q ∈ s.queue, q.isRef = false ∧ q.ty ∈ s.vis
+  qinv : QInv g s.vis (fun _ => False) s.queue
+  visDone : ∀ v ∈ s.vis, Done g s.vis v ∨ ∃ q ∈ s.queue, g.kidTys q.ty = g.kidTys v
+  edgeOK : ∀ a ∈ s.adds, ∀ c ∈ a.2, Below g rk s.vis c a.1
+
+theorem invB_init {rk : Nat → Nat} (hw : WF g rk) (root : Nat) : InvB g rk (init g root) where
+  qIn := by simp [init, rootNode, plainNode]
+  qinv := by simp [init, QInv, rootNode, plainNode]
+  visDone := by
+    intro v hv
+    simp only [init, List.mem_cons, List.not_mem_nil, or_false] at hv
+    refine Or.inr ⟨rootNode g root, by simp [init], ?_⟩
+    rcases hv with rfl | rfl
+    · rfl
+    · simp [rootNode, plainNode, hw.kidsUnw]
+  edgeOK := by simp [init]
+
+theorem invB_step {rk : Nat → Nat} (hw : WF g rk) (s : State) (p : Node) (rest : List Node)
+    (hq : s.queue = p :: rest) (h : InvB g rk s) : InvB g rk (stepWith g s p rest) := by
+  have hmono : ∀ x ∈ s.vis, x ∈ (expand g s.vis (g.kids p.ty)).vis := fun x hx => expand_vis_mono hx
+  have hpdone : Done g (expand g s.vis (g.kids p.ty)).vis p.ty := expand_done _ _
+  have hpq := h.qIn p (by simp [hq])
+  have hqinv := h.qinv
+  rw [hq] at hqinv
+  obtain ⟨hphead, hqrest⟩ := hqinv
+  -- what is known of a type visited before this step
+  have hold : ∀ v ∈ s.vis, Done g (expand g s.vis (g.kids p.ty)).vis v ∨
+      ∃ q', q' ∈ rest ∧ g.kidTys q'.ty = g.kidTys v := by
+    intro v hv
+    rcases h.visDone v hv with d | ⟨q, hqm, hk⟩
+    · exact Or.inl (done_mono hmono d)
+    · rw [hq] at hqm
+      rcases List.mem_cons.1 hqm with rfl | hqm
+      · exact Or.inl (done_congr hk hpdone)
+      · exact Or.inr ⟨q, hqm, hk⟩
+  refine ⟨?_, ?_, ?_, ?_⟩
+  · intro q hq'
+    simp only [stepWith_queue, List.mem_append] at hq'
+    rcases hq' with hq' | hq'
+    · have := h.qIn q (by rw [hq]; exact List.mem_cons_of_mem _ hq')
+      exact ⟨this.1, expand_vis_mono this.2⟩
+    · exact ⟨((expand_pushed_iff _ _ _).1 hq').2, expand_pushed_vis _ _ q hq'⟩
+  · simp only [stepWith_queue, stepWith_vis]
+    apply qinv_append
+    · apply qinv_drop hmono hpdone
+      exact qinv_mono rest (fun x hx => Or.inr (hx.elim False.elim id)) hqrest
+    · apply expand_qinv hw.kidsUnw _ _ _ _ _ (fun x hx => hx)
+      intro v hv
+      rcases hold v hv with d | ⟨q', hq', hk⟩
+      · exact Or.inl d
+      · exact Or.inr ⟨q', Or.inr hq', hk⟩
+  · intro v hv
+    simp only [stepWith_vis] at hv
+    simp only [stepWith_queue, stepWith_vis]
+    rcases expand_vis_src hw.kidsUnw _ _ v hv with hv | ⟨n, hn, hk⟩
+    · rcases hold v hv with d | ⟨q', hq', hk⟩
+      · exact Or.inl d
+      · exact Or.inr ⟨q', List.mem_append_left _ hq', hk⟩
+    · exact Or.inr ⟨n, List.mem_append_right _ hn, hk⟩
+  · intro a ha c hc
+    simp only [stepWith_adds, List.mem_append, List.mem_singleton] at ha
+    simp only [stepWith_vis]
+    rcases ha with ha | rfl
+    · obtain ⟨ext, he⟩ := expand_vis_append (g := g) s.vis (g.kids p.ty)
+      rw [he]; exact below_mono (h.edgeOK a ha c hc)
+    · -- the edges of the new `add`
+      simp only at hc ⊢
+      have hkey := pred_key_mem hc
+      have hok := expand_preds_ok _ _ c hc
+      have hpr : p.isRef = false := hpq.1
+      cases hpc : p.cyclic with
+      | true =>
+        have hd : Done g s.vis p.ty := by
+          rcases hphead hpc with d | ⟨_, hf, _⟩
+          · exact d
+          · exact hf.elim
+        have hd' : ∀ c' ∈ (g.kids p.ty).map Prod.snd, seen g s.vis c' = true := hd
+        have hclsp : cls g p = 2 := cls_flag hpr hpc
+        rcases expand_preds_seen _ _ hd' c hc with hr | ⟨hr, hcy, hcut⟩
+        · left; rw [cls_ref hr, hclsp]; omega
+        · cases hst : g.stdlib c.ty with
+          | true =>
+            rw [hst] at hcy
+            left; rw [cls_std hr (by simpa using hcy) hst, hclsp]; omega
+          | false =>
+            rw [hst] at hcy
+            right; left
+            refine ⟨by rw [cls_flag hr (by simpa using hcy), hclsp], by omega, hw.rank p.ty _ hkey hcut⟩
+      | false =>
+        cases hps : g.stdlib p.ty with
+        | true =>
+          have hall : ∀ c' ∈ (g.kids p.ty).map Prod.snd, g.stdlib c' = true := by
+            intro c' hc'
+            obtain ⟨vc, hvc, rfl⟩ := List.mem_map.1 hc'
+            exact hw.stdClosed p.ty hps vc hvc
+          obtain ⟨hr, hcy⟩ := expand_preds_std _ _ hall c hc
+          have hcs : g.stdlib c.ty = true := hw.stdClosed p.ty hps _ hkey
+          have hcut : g.cuttable c.ty = false := by simp [TyGraph.cuttable, hcs]
+          have hclsp : cls g p = 1 := cls_std hpr hpc hps
+          right; left
+          refine ⟨by rw [cls_std hr hcy hcs, hclsp], by omega, hw.rank p.ty _ hkey hcut⟩
+        | false =>
+          have hclsp : cls g p = 3 := cls_first hpr hpc hps
+          cases hr : c.isRef with
+          | true => left; rw [cls_ref hr, hclsp]; omega
+          | false =>
+            cases hcy : c.cyclic with
+            | true => left; rw [cls_flag hr hcy, hclsp]; omega
+            | false =>
+              cases hcs : g.stdlib c.ty with
+              | true => left; rw [cls_std hr hcy hcs, hclsp]; omega
+              | false =>
+                obtain ⟨f1, f2⟩ := expand_preds_fresh _ _ c hc hr hcy hcs
+                right; right
+                exact ⟨cls_first hr hcy hcs, hclsp, expand_vis_mono hpq.2, f1, f2 _ hpq.2⟩
+
+section Final
+variable {root fuel : Nat} {adds : Adds} {o : List Node} {rk : Nat → Nat}
+
+/-- (b) The edges handed to graphlib have no cycle, so `CycleError` is impossible. -/
+theorem edges_acyclic (hw : WF g rk) (hb : build g root fuel = some adds) :
+    ∀ n, ¬ Relation.TransGen (Edge adds) n n := by
+  obtain ⟨vis, hB⟩ := build_final (InvB g rk) (invB_init hw root) (fun s p rest => invB_step hw s p rest) hb
+  have hedge : ∀ c p, Edge adds c p → Below g rk vis c p := by
+    rintro c p ⟨a, ha, rfl, hc⟩
+    exact hB.edgeOK a ha c hc
+  have htrans : ∀ a b, Relation.TransGen (Edge adds) a b → Below g rk vis a b := by
+    intro a b hab
+    induction hab with
+    | single h => exact hedge _ _ h
+    | tail _ h ih => exact below_trans ih (hedge _ _ h)
+  intro n hn
+  exact below_irrefl (htrans n n hn)
+
+end Final
+
+/-! ## 8. Termination with an explicit fuel bound -/
+
+def unvisitedCut (g : TyGraph) (vis : List Nat) (t : Nat) : Bool := g.cuttable t && !vis.contains t
+
+/-- Number of named non-stdlib types not yet in `visited`. -/
+def unvisited (g : TyGraph) (vis : List Nat) : Nat := (List.range g.size).countP (unvisitedCut g vis)
+
+def anonSum (g : TyGraph) (C : Nat → Nat) (ks : List (Option Str × Nat)) : Nat :=
+  ((ks.filter (notCut g)).map (costOf C)).sum
+
+def nodeCost (C : Nat → Nat) (n : Node) : Nat := C n.ty
+def qSum (C : Nat → Nat) (q : List Node) : Nat := (q.map (nodeCost C)).sum
+
+/-- The potential that drops with every pop. -/
+def potential (g : TyGraph) (K : Nat) (C : Nat → Nat) (s : State) : Nat :=
+  K * unvisited g s.vis + qSum C s.queue
+
+theorem qSum_append (C : Nat → Nat) (a b : List Node) : qSum C (a ++ b) = qSum C a + qSum C b := by
+  simp [qSum, List.sum_append]
+
+theorem countP_strict {p q : Nat → Bool} {l : List Nat} {x : Nat} (hx : x ∈ l) (hq : q x = true)
+    (hp : p x = false) (hpq : ∀ y, p y = true → q y = true) : l.countP p + 1 ≤ l.countP q := by
+  induction l with
+  | nil => cases hx
+  | cons y l ih =>
+    rcases List.mem_cons.1 hx with rfl | hx
+    · have := List.countP_mono_left (l := l) (fun y _ h => hpq y h)
+      simp [hq, hp]; omega
+    · have := ih hx
+      simp only [List.countP_cons]
+      cases hpy : p y with
+      | true => simp [hpq y hpy]; omega
+      | false => simp; split <;> omega
+
+theorem cuttable_lt {c : Nat} (h : g.cuttable c = true) : c < g.size := by
+  by_cases hc : c < g.size
+  · exact hc
+  · simp [TyGraph.cuttable, TyGraph.named, out_of_range (Nat.le_of_not_lt hc)] at h
+
+theorem unvisited_mono {vis vis' : List Nat} (h : ∀ x ∈ vis, x ∈ vis') : unvisited g vis' ≤ unvisited g vis := by
+  apply List.countP_mono_left
+  intro y _ hy
+  simp only [unvisitedCut, Bool.and_eq_true, Bool.not_eq_true', List.contains_eq_mem, decide_eq_false_iff_not] at hy ⊢
+  exact ⟨hy.1, fun hm => hy.2 (h y hm)⟩
+
+theorem unvisited_strict {vis vis' : List Nat} (h : ∀ x ∈ vis, x ∈ vis') {c : Nat} (hc : g.cuttable c = true)
+    (h1 : c ∉ vis) (h2 : c ∈ vis') : unvisited g vis' + 1 ≤ unvisited g vis := by
+  apply countP_strict (x := c) (List.mem_range.2 (cuttable_lt hc))
+  · simp [unvisitedCut, hc, h1]
+  · simp [unvisitedCut, h2]
+  · intro y hy
+    simp only [unvisitedCut, Bool.and_eq_true, Bool.not_eq_true', List.contains_eq_mem, decide_eq_false_iff_not] at hy ⊢
+    exact ⟨hy.1, fun hm => hy.2 (h y hm)⟩
+
+/-- One parent's members: what they add to the queue is paid for by the members that are walked whatever
+    happens (`anonSum`) and by the named types that become visited. -/
+theorem expand_potential (K : Nat) (C : Nat → Nat) (hK : ∀ t, g.cuttable t = true → C t ≤ K)
+    (ks : List (Option Str × Nat)) : ∀ vis : List Nat,
+    K * unvisited g (expand g vis ks).vis + qSum C (expand g vis ks).pushed
+      ≤ K * unvisited g vis + anonSum g C ks := by
+  induction ks with
+  | nil => intro vis; simp [expand_nil, qSum, anonSum]
+  | cons k rest ih =>
+    obtain ⟨v, c⟩ := k
+    intro vis
+    cases h : (seen g vis c && g.cuttable c) with
+    | true =>
+      rw [expand_cons_ref h]
+      simp only [Bool.and_eq_true] at h
+      have : anonSum g C ((v, c) :: rest) = anonSum g C rest := by
+        simp [anonSum, notCut, h.2]
+      rw [this]; exact ih vis
+    | false =>
+      rw [expand_cons_plain h]
+      dsimp only
+      have ih' := ih (vis ++ [c, g.unw c])
+      have hsub : ∀ x ∈ vis, x ∈ vis ++ [c, g.unw c] := fun x hx => List.mem_append_left _ hx
+      have hq : qSum C (plainNode g v c (seen g vis c && !g.stdlib c) ::
+          (expand g (vis ++ [c, g.unw c]) rest).pushed)
+          = C c + qSum C (expand g (vis ++ [c, g.unw c]) rest).pushed := by
+        simp [qSum, nodeCost, plainNode]
+      rw [hq]
+      cases hcut : g.cuttable c with
+      | true =>
+        rw [hcut] at h
+        simp only [Bool.and_true] at h
+        have hnot : c ∉ vis := by
+          intro hm
+          have : seen g vis c = true := by simp [seen, hm]
+          rw [this] at h; cases h
+        have hU := unvisited_strict (g := g) hsub hcut hnot (by simp)
+        have hm := Nat.mul_le_mul_left K hU
+        rw [Nat.mul_add, Nat.mul_one] at hm
+        have hc := hK c hcut
+        have : anonSum g C ((v, c) :: rest) = anonSum g C rest := by
+          simp [anonSum, notCut, hcut]
+        rw [this]; omega
+      | false =>
+        have hU := unvisited_mono (g := g) hsub
+        have hm := Nat.mul_le_mul_left K hU
+        have : anonSum g C ((v, c) :: rest) = C c + anonSum g C rest := by
+          simp [anonSum, notCut, hcut, costOf]
+        rw [this]; omega
+
+theorem anonKids_nil_of_rank_zero {rk : Nat → Nat} (hw : WF g rk) {t : Nat} (h : rk t = 0) : anonKids g t = [] := by
+  simp only [anonKids, List.filter_eq_nil_iff]
+  intro vc hvc hn
+  have := hw.rank t vc hvc (by simpa [notCut] using hn)
+  omega
+
+theorem anonKids_mem {t : Nat} {vc : Option Str × Nat} (h : vc ∈ anonKids g t) :
+    vc ∈ g.kids t ∧ g.cuttable vc.2 = false := by
+  simp only [anonKids, List.mem_filter, notCut, Bool.not_eq_true'] at h
+  exact h
+
+theorem cost_stable {rk : Nat → Nat} (hw : WF g rk) : ∀ f t, rk t ≤ f → cost g (f + 1) t = cost g f t := by
+  intro f
+  induction f with
+  | zero =>
+    intro t ht
+    simp [cost, anonKids_nil_of_rank_zero hw (Nat.le_zero.1 ht)]
+  | succ f ih =>
+    intro t ht
+    show 1 + ((anonKids g t).map (costOf (cost g (f + 1)))).sum = 1 + ((anonKids g t).map (costOf (cost g f))).sum
+    congr 2
+    apply List.map_congr_left
+    intro vc hvc
+    obtain ⟨h1, h2⟩ := anonKids_mem hvc
+    have := hw.rank t vc h1 h2
+    exact ih vc.2 (by omega)
+
+theorem kids_out_of_range {t : Nat} (h : g.size ≤ t) : g.kids t = [] := by
+  simp [TyGraph.kids, out_of_range h]
+
+/-- With enough unfolding depth `cost` satisfies its defining equation. -/
+theorem cost_fix {rk : Nat → Nat} (hw : WF g rk) (R : Nat) (hR : ∀ t, t < g.size → rk t ≤ R) (t : Nat) :
+    cost g R t = 1 + anonSum g (cost g R) (g.kids t) := by
+  show cost g R t = 1 + ((anonKids g t).map (costOf (cost g R))).sum
+  by_cases ht : t < g.size
+  · cases R with
+    | zero => simp [cost, anonKids_nil_of_rank_zero hw (Nat.le_zero.1 (hR t ht))]
+    | succ R =>
+      show 1 + ((anonKids g t).map (costOf (cost g R))).sum = 1 + ((anonKids g t).map (costOf (cost g (R + 1)))).sum
+      congr 2
+      apply List.map_congr_left
+      intro vc hvc
+      obtain ⟨h1, h2⟩ := anonKids_mem hvc
+      have h3 := hw.rank t vc h1 h2
+      have h4 := hR t ht
+      exact (cost_stable hw R vc.2 (by omega)).symm
+  · have : anonKids g t = [] := by simp [anonKids, kids_out_of_range (Nat.le_of_not_lt ht)]
+    cases R <;> simp [cost, this]
+
+theorem cost_pos (f t : Nat) : 1 ≤ cost g f t := by
+  cases f <;> simp [cost]
+
+theorem le_sum_map {l : List Nat} {f : Nat → Nat} {x : Nat} (h : x ∈ l) : f x ≤ (l.map f).sum := by
+  induction l with
+  | nil => cases h
+  | cons y l ih =>
+    rcases List.mem_cons.1 h with rfl | h
+    · simp
+    · have := ih h; simp; omega
+
+theorem rank_le_rankSum (rk : Nat → Nat) {t : Nat} (h : t < g.size) : rk t ≤ rankSum g rk :=
+  le_sum_map (List.mem_range.2 h)
+
+theorem cost_le_costAll {rk : Nat → Nat} (hw : WF g rk) (t : Nat) : cost g (rankSum g rk) t ≤ costAll g rk := by
+  by_cases ht : t < g.size
+  · have := le_sum_map (f := cost g (rankSum g rk)) (List.mem_range.2 ht)
+    simp only [costAll]; omega
+  · have h1 := cost_fix hw (rankSum g rk) (fun t ht => rank_le_rankSum rk ht) t
+    rw [kids_out_of_range (Nat.le_of_not_lt ht)] at h1
+    simp [anonSum] at h1
+    simp only [costAll]; omega
+
+theorem potential_step {rk : Nat → Nat} (hw : WF g rk) (s : State) (p : Node) (rest : List Node)
+    (hq : s.queue = p :: rest) :
+    potential g (costAll g rk) (cost g (rankSum g rk)) (stepWith g s p rest) + 1
+      ≤ potential g (costAll g rk) (cost g (rankSum g rk)) s := by
+  have h1 := expand_potential (g := g) (costAll g rk) (cost g (rankSum g rk))
+    (fun t _ => cost_le_costAll hw t) (g.kids p.ty) s.vis
+  have h2 := cost_fix hw (rankSum g rk) (fun t ht => rank_le_rankSum rk ht) p.ty
+  simp only [potential, stepWith_vis, stepWith_queue, qSum_append, hq]
+  have : qSum (cost g (rankSum g rk)) (p :: rest)
+      = cost g (rankSum g rk) p.ty + qSum (cost g (rankSum g rk)) rest := by
+    simp [qSum, nodeCost]
+  rw [this]; omega
+
+theorem qSum_pos (C : Nat → Nat) (hC : ∀ t, 1 ≤ C t) (p : Node) (rest : List Node) : 1 ≤ qSum C (p :: rest) := by
+  have := hC p.ty
+  simp [qSum, nodeCost]; omega
+
+theorem run_terminates {rk : Nat → Nat} (hw : WF g rk) : ∀ fuel s,
+    potential g (costAll g rk) (cost g (rankSum g rk)) s ≤ fuel → (run g fuel s).isSome = true := by
+  intro fuel
+  induction fuel with
+  | zero =>
+    intro s hs
+    cases hq : s.queue with
+    | nil => simp [run, hq]
+    | cons p rest =>
+      have := qSum_pos (cost g (rankSum g rk)) (cost_pos _) p rest
+      simp only [potential, hq] at hs
+      omega
+  | succ f ih =>
+    intro s hs
+    cases hq : s.queue with
+    | nil => simp [run, hq]
+    | cons p rest =>
+      simp only [run, hq]
+      exact ih _ (by have := potential_step hw s p rest hq; omega)
+
+/-- (a) With fuel at least (number of type ids + 1) × (1 + Σ_t cost t) + 1 the loop finishes. -/
+theorem build_terminates_of {rk : Nat → Nat} (hw : WF g rk) (root fuel : Nat)
+    (hf : (g.size + 1) * costAll g rk + 1 ≤ fuel) : (build g root fuel).isSome = true := by
+  have hU : unvisited g [root, g.unw root] ≤ g.size := by
+    have := List.countP_le_length (p := unvisitedCut g [root, g.unw root]) (l := List.range g.size)
+    simpa [unvisited] using this
+  have hC := cost_le_costAll hw root
+  have hm := Nat.mul_le_mul_left (costAll g rk) hU
+  have hp : potential g (costAll g rk) (cost g (rankSum g rk)) (init g root) ≤ fuel := by
+    simp only [potential, init, qSum, List.map_cons, List.map_nil, List.sum_cons, List.sum_nil, nodeCost,
+      rootNode, plainNode]
+    rw [Nat.add_mul, Nat.one_mul, Nat.mul_comm] at hf
+    omega
+  have := run_terminates hw fuel (init g root) hp
+  simp only [build, Option.isSome_map]
+  exact this
+
+theorem build_terminates (h : wf g = true) (root fuel : Nat) (hf : fuelBound g ≤ fuel) :
+    (build g root fuel).isSome = true :=
+  build_terminates_of (wf_sound h) root fuel hf
+
+/-- The hypothesis is needed: an anonymous type that contains itself (`X = list[X]` as an object graph)
+    is not well-formed, and on it the loop re-walks the type forever. -/
+def loopG : TyGraph :=
+  { tys := [{ named := false, stdlib := false, leaf := false, unwrapped := 0, ucls := false, children := [(none, 0)] }] }
+
+theorem loopG_not_wf : wf loopG = false := by decide
+
+theorem loop_spins : ∀ (fuel : Nat) (vis : List Nat) (adds : Adds), 0 ∈ vis →
+    run loopG fuel { vis := vis, queue := [plainNode loopG none 0 true], adds := adds } = none := by
+  intro fuel
+  induction fuel with
+  | zero => intro vis adds _; simp [run]
+  | succ f ih =>
+    intro vis adds h0
+    have hk : loopG.kids 0 = [(none, 0)] := rfl
+    have hc : loopG.cuttable 0 = false := rfl
+    have hs : loopG.stdlib 0 = false := rfl
+    have hseen : seen loopG vis 0 = true := by simp [seen, h0]
+    have he : expand loopG vis [(none, 0)] =
+        { vis := vis ++ [0, loopG.unw 0], preds := [plainNode loopG none 0 true],
+          pushed := [plainNode loopG none 0 true] } := by
+      rw [expand_cons_plain (by simp [hseen, hc])]
+      simp [expand_nil, hseen, hs]
+    simp only [run, stepWith, plainNode, hk]
+    simp only [plainNode] at he ih
+    rw [he]
+    exact ih _ _ (by simp [h0])
+
+theorem loop_diverges : ∀ fuel, build loopG 0 fuel = none := by
+  intro fuel
+  cases fuel with
+  | zero => simp [build, run, init]
+  | succ f =>
+    have hk : loopG.kids 0 = [(none, 0)] := rfl
+    have hc : loopG.cuttable 0 = false := rfl
+    have hs : loopG.stdlib 0 = false := rfl
+    have hseen : seen loopG [0, loopG.unw 0] 0 = true := by simp [seen]
+    have he : expand loopG [0, loopG.unw 0] [(none, 0)] =
+        { vis := [0, loopG.unw 0] ++ [0, loopG.unw 0], preds := [plainNode loopG none 0 true],
+          pushed := [plainNode loopG none 0 true] } := by
+      rw [expand_cons_plain (by simp [hseen, hc])]
+      simp [expand_nil, hseen, hs]
+    simp only [build, run, init, stepWith, rootNode, plainNode, hk, Option.map_eq_none_iff]
+    simp only [plainNode] at he
+    rw [he]
+    exact loop_spins f _ _ (by simp)
+
+/-! ## 9. graphlib's order: a checked certificate -/
+
+theorem mem_insertNew {l : List Node} {n x : Node} : x ∈ insertNew l n ↔ x ∈ l ∨ x = n := by
+  unfold insertNew
+  split
+  · next h =>
+    have : n ∈ l := by simpa using h
+    constructor
+    · exact Or.inl
+    · rintro (h | rfl)
+      · exact h
+      · exact this
+  · simp
+
+theorem mem_foldl_insertNew (ps : List Node) : ∀ (acc : List Node) (x : Node),
+    x ∈ ps.foldl insertNew acc ↔ x ∈ acc ∨ x ∈ ps := by
+  induction ps with
+  | nil => simp
+  | cons p ps ih =>
+    intro acc x
+    simp only [List.foldl_cons, ih, mem_insertNew, List.mem_cons]
+    constructor
+    · rintro ((h | h) | h)
+      · exact Or.inl h
+      · exact Or.inr (Or.inl h)
+      · exact Or.inr (Or.inr h)
+    · rintro (h | h | h)
+      · exact Or.inl (Or.inl h)
+      · exact Or.inl (Or.inr h)
+      · exact Or.inr h
+
+theorem mem_foldl_addNodes (adds : Adds) : ∀ (acc : List Node) (x : Node),
+    x ∈ adds.foldl addNodes acc ↔ x ∈ acc ∨ x ∈ allNodes adds := by
+  induction adds with
+  | nil => simp [allNodes]
+  | cons a adds ih =>
+    intro acc x
+    simp only [List.foldl_cons, ih, addNodes, mem_foldl_insertNew, mem_insertNew, allNodes, List.flatMap_cons,
+      List.mem_append, List.mem_cons]
+    constructor
+    · rintro (((h | h) | h) | h)
+      · exact Or.inl h
+      · exact Or.inr (Or.inl (Or.inl h))
+      · exact Or.inr (Or.inl (Or.inr h))
+      · exact Or.inr (Or.inr h)
+    · rintro (h | (h | h) | h)
+      · exact Or.inl (Or.inl (Or.inl h))
+      · exact Or.inl (Or.inl (Or.inr h))
+      · exact Or.inl (Or.inr h)
+      · exact Or.inr h
+
+theorem mem_nodesOf {adds : Adds} {x : Node} : x ∈ nodesOf adds ↔ x ∈ allNodes adds := by
+  simp [nodesOf, mem_foldl_addNodes]
+
+/-- The boolean certificate the driver evaluates on every sequence it reports is sound. -/
+theorem checkTopo_sound {adds : Adds} {o : List Node} (h : checkTopo adds o = true) : IsTopoOrder adds o := by
+  simp only [checkTopo, Bool.and_eq_true, decide_eq_true_eq, List.all_eq_true, List.contains_iff_mem] at h
+  obtain ⟨⟨⟨h1, h2⟩, h3⟩, h4⟩ := h
+  refine ⟨h1, fun n => ⟨fun hn => mem_nodesOf.1 (h3 n hn), fun hn => h2 n (mem_nodesOf.2 hn)⟩, ?_⟩
+  rintro c p ⟨a, ha, rfl, hc⟩
+  exact h4 a ha c hc
+
+/-! ## 10. Non-vacuity: the hypotheses hold on the graphs of real recursive programs -/
+
+private def ti (named stdlib : Bool) (unw : Nat) (ucls : Bool) (kids : List (Option Str × Nat)) : TyInfo :=
+  { named := named, stdlib := stdlib, leaf := false, unwrapped := unw, ucls := ucls, children := kids }
+
+/-- `class Node: children: list[Node]`, root `list[Node]`:  0 = list[Node], 1 = Node. -/
+def gNode : TyGraph := { tys := [ti false false 0 false [(none, 1)], ti true false 1 true [(some ['c'], 0)]] }
+
+/-- `class Head: x: Optional[LNode]`, `class LNode: x: Optional[LNode]`, root `Head`:
+    0 = Head, 1 = Optional[LNode], 2 = LNode, 3 = NoneType. -/
+def gHead : TyGraph :=
+  { tys := [ti true false 0 true [(some ['x'], 1)], ti false false 1 false [(none, 2), (none, 3)],
+            ti true false 2 true [(some ['x'], 1)], ti true true 3 true []] }
+
+/-- `class KNode: kids: dict[str, list[KNode]]`, root `dict[str, list[KNode]]`:
+    0 = dict[str, list[KNode]], 1 = str, 2 = list[KNode], 3 = KNode. -/
+def gKNode : TyGraph :=
+  { tys := [ti false false 0 false [(none, 1), (none, 2)], ti true true 1 true [],
+            ti false false 2 false [(none, 3)], ti true false 3 true [(some ['k'], 0)]] }
+
+/-- A diamond of generics `tuple[list[int], list[int]]` seen as a generic: 0 = the tuple, 1 = list[int], 2 = int. -/
+def gDiamond : TyGraph :=
+  { tys := [ti false false 0 false [(none, 1), (none, 1)], ti false false 1 false [(none, 2)], ti true true 2 true []] }
+
+example : wf gNode = true := by decide
+example : wf gHead = true := by decide
+example : wf gKNode = true := by decide
+example : wf gDiamond = true := by decide
+
+private def N (ty unw : Nat) (v : Option Str) (cyc ref : Bool) : Node :=
+  { ty := ty, unwrapped := unw, var := v, cyclic := cyc, isRef := ref }
+
+/-- The sequence the real `static_order(list[Node])` returns: the reference to `Node`, the re-walked
+    `list[Node]` of the field, `Node`, the root. -/
+def oNode : List Node :=
+  [N 1 1 none true true, N 0 0 (some ['c']) true false, N 1 1 none false false, N 0 0 none false false]
+
+def aNode : Adds :=
+  [(N 0 0 none false false, [N 1 1 none false false]),
+   (N 1 1 none false false, [N 0 0 (some ['c']) true false]),
+   (N 0 0 (some ['c']) true false, [N 1 1 none true true])]
+
+example : build gNode 0 5 = some aNode := by decide
+example : staticOrder aNode = some oNode := by decide
+example : IsTopoOrder aNode oNode := checkTopo_sound (by decide)
+example : (build gNode 0 (fuelBound gNode)).isSome = true := build_terminates (by decide) 0 _ (Nat.le_refl _)
+
+/-- `static_order(Head)`: NoneType, ref LNode, re-walked Optional[LNode], LNode, Optional[LNode], Head. -/
+def oHead : List Node :=
+  [N 3 3 none false false, N 2 2 none true true, N 1 1 (some ['x']) true false, N 2 2 none false false,
+   N 1 1 (some ['x']) false false, N 0 0 none false false]
+
+example : (build gHead 0 8).bind staticOrder = some oHead := by decide
+example : ((build gHead 0 8).map (fun a => checkTopo a oHead)) = some true := by decide
+
+/-- `static_order(dict[str, list[KNode]])`. -/
+def oKNode : List Node :=
+  [N 1 1 none false false, N 3 3 none true true, N 2 2 none true false, N 0 0 (some ['k']) true false,
+   N 3 3 none false false, N 2 2 none false false, N 0 0 none false false]
+
+example : (build gKNode 0 10).bind staticOrder = some oKNode := by decide
+example : ((build gKNode 0 10).map (fun a => checkTopo a oKNode)) = some true := by decide
+
+/-- The diamond: the second `list[int]` is a node of its own (flagged), `int` is shared. -/
+def oDiamond : List Node :=
+  [N 2 2 none false false, N 1 1 none false false, N 1 1 none true false, N 0 0 none false false]
+
+example : (build gDiamond 0 8).bind staticOrder = some oDiamond := by decide
+example : ((build gDiamond 0 8).map (fun a => checkTopo a oDiamond)) = some true := by decide
+
+/-- All the theorems of this file instantiated on `gNode`. -/
+example : oNode.Nodup ∧ oNode.getLast? = some (rootNode gNode 0)
+    ∧ (∀ n ∈ oNode, n.isRef = true → n.cyclic = true)
+    ∧ (∀ n, ¬ Relation.TransGen (Edge aNode) n n) := by
+  have hb : build gNode 0 5 = some aNode := by decide
+  have ho : IsTopoOrder aNode oNode := checkTopo_sound (by decide)
+  have hw : WF gNode (rank gNode) := wf_sound (by decide)
+  exact ⟨order_nodup hb ho, root_last hb ho, fun n hn hr => ref_flagged hb ho hn hr, edges_acyclic hw hb⟩
+
 end Typelib.C09
